@@ -283,12 +283,18 @@ def _tol(env, ref, delta, depth):
 
 def _reference(env, b, x, depth):
     """(ref, tol, status) of subtree ``b`` at NumPy point ``x``."""
-    ref = ex.Interp(env).ev(b, x)
+    try:
+        ref = ex.Interp(env).ev(b, x)
+    except ex.RefOverflow:
+        return None, None, 'nonfinite'
     if not ex.vfinite(ref):
         return ref, None, 'nonfinite'
     delta = 0.0
     for seed in (11, 23):
-        noisy = ex.Interp(env, noise=NOISE, seed=seed).ev(b, x)
+        try:
+            noisy = ex.Interp(env, noise=NOISE, seed=seed).ev(b, x)
+        except ex.RefOverflow:
+            return ref, None, 'nonfinite'
         if not ex.vfinite(noisy):
             return ref, None, 'nonfinite'
         delta = max(delta, ex.vmaxabs(ex.vsub(noisy, ref)))
@@ -355,13 +361,16 @@ def _alias_sweep(env, root, x, depth, whole_tree):
     the root at ``x``: ``r is y`` and the values are the interpreter's.
     Children are visited before parents, so the first failure is the smallest
     failing subtree.  Returns the list of strata hit."""
-    clean = Tracer(env)
-    clean.ev(root, x)
     noisy = []
-    for seed in (11, 23):
-        t = Tracer(env, noise=NOISE, seed=seed)
-        t.ev(root, x)
-        noisy.append(t)
+    try:
+        clean = Tracer(env)
+        clean.ev(root, x)
+        for seed in (11, 23):
+            t = Tracer(env, noise=NOISE, seed=seed)
+            t.ev(root, x)
+            noisy.append(t)
+    except ex.RefOverflow:
+        return ['trivial-point:overflow']
     order = []
 
     def post(b):
@@ -642,7 +651,8 @@ def run_case(desc):
     ok = [s for s in statuses if s == 'ok']
     if not ok:
         return Outcome('trivial', strata=['trivial:' + statuses[0]],
-                       notes={s: 1 for s in set(statuses)})
+                       notes=dict({s: 1 for s in set(statuses)},
+                                  overflow=int('nonfinite' in statuses)))
     nontriv = depth >= 2 and (nonlin_leaf or rightish)
     return Outcome('ok', strata=strata, nontrivial=nontriv,
                    notes={'points_' + s: statuses.count(s)
